@@ -582,6 +582,8 @@ class _NPX(_types.ModuleType):
         return _np.full(shape, fill_value, dtype=_real_dtype(dtype), **k)
 
     def zeros_like(self, a, dtype=None, **k):
+        if dtype is not None and not _inexact(dtype):
+            return _np.zeros(_np.shape(a), dtype=_real_dtype(dtype))
         if _is_obj(a) or (STATE.exact and _inexact(dtype if dtype is not None else getattr(a, "dtype", None))):
             return _obj_full(_np.shape(a), 0)
         return _np.zeros_like(a, dtype=_real_dtype(dtype), **k)
@@ -642,6 +644,26 @@ class _NPX(_types.ModuleType):
         if _is_obj(a) or isinstance(a, X):
             return bool(getattr(STATE, "complex_mode", False))
         return _np.iscomplexobj(a)
+
+    def column_stack(self, tup):
+        r = _np.column_stack(tup)
+        return r.view(XArray) if r.dtype == object else r
+
+    def vstack(self, tup, **k):
+        r = _np.vstack(tup, **k)
+        return r.view(XArray) if r.dtype == object else r
+
+    def concatenate(self, tup, *a, **k):
+        r = _np.concatenate(tup, *a, **k)
+        return r.view(XArray) if r.dtype == object else r
+
+    def fromiter(self, it, dtype=None, count=-1, **k):
+        if STATE.exact:
+            lst = list(it)
+            if any(isinstance(c, X) for c in lst):
+                return _np.array(lst, dtype=object).view(XArray)
+            return _np.array(lst, dtype=_real_dtype(dtype))
+        return _np.fromiter(it, dtype=_real_dtype(dtype), count=count, **k)
 
     def isscalar(self, a):
         return isinstance(a, X) or _np.isscalar(a)
